@@ -84,6 +84,10 @@ def withPrefix (m : Map) (p : Bytes) : Map := m.filter (fun e => p.isPrefixOf e.
 
 /-! ### batches -/
 
+/-- "strictly before `k`" in iteration order (ascending, or descending when `rev`). -/
+def before (rev : Bool) (k : Bytes) (e : Entry) : Bool := if rev then blt k e.1 else blt e.1 k
+
+
 inductive BOp where
   | set (k v : Bytes)
   | del (k : Bytes)
@@ -95,6 +99,78 @@ def applyOp (m : Map) : BOp → Map
 
 /-- `Batch.Write`: all operations, in order. -/
 def applyBatch (m : Map) (ops : List BOp) : Map := ops.foldl applyOp m
+
+/-! ### the batch wrappers (`memBatch`, `goLevelDBBatch`, `GoBadgerDBBatch`)
+
+A Go `[]byte` argument is `Option Bytes`: `none` = `nil`, `some []` = a non-nil empty slice. -/
+
+/-- a call of the `Batch` interface. -/
+inductive BCall where
+  | set (k : Bytes) (v : Option Bytes)
+  | delete (k : Bytes)
+  | reset
+  deriving Repr, DecidableEq
+
+/-- `len(v)`. -/
+def goLen : Option Bytes → Nat
+  | none => 0
+  | some v => v.length
+
+/-- `cloneByte(v)`: `make([]byte, len(v))` + copy — never nil. -/
+def cloneByte : Option Bytes → Option Bytes
+  | none => some []
+  | some v => some v
+
+/-- `memBatch{writes []kv, size, len}`; `goLevelDBBatch` and `GoBadgerDBBatch` keep the same two
+counters next to the engine's own batch, whose content is the same list (`Put(k, nil)` stores an
+empty value there as well). -/
+structure Batch where
+  /-- `kv{k, v}`: `v = none` (nil) marks a delete. -/
+  writes : List (Bytes × Option Bytes) := []
+  /-- `ValueSize()`. -/
+  size : Nat := 0
+  /-- `ValueLen()` — grows by `len(value)` per `Set` and by 1 per `Delete` (as written). -/
+  len : Nat := 0
+  deriving Repr
+
+/-- `Set`: `writes = append(writes, kv{cloneByte(key), cloneByte(value)})` — a nil value becomes a
+non-nil empty one, so it is *not* a delete. -/
+def Batch.set (b : Batch) (k : Bytes) (v : Option Bytes) : Batch :=
+  { writes := b.writes ++ [(k, cloneByte v)], size := b.size + goLen v + k.length, len := b.len + goLen v }
+
+/-- `Delete`: `kv{cloneByte(key), nil}`. -/
+def Batch.delete (b : Batch) (k : Bytes) : Batch :=
+  { writes := b.writes ++ [(k, none)], size := b.size + k.length, len := b.len + 1 }
+
+def Batch.reset (_ : Batch) : Batch := {}
+
+def Batch.call (b : Batch) : BCall → Batch
+  | .set k v => b.set k v
+  | .delete k => b.delete k
+  | .reset => b.reset
+
+/-- `GoMemDB.Set` / `Delete` on the database; `true` = an error was returned
+(memdb reports the delete of an absent key). -/
+def dbSet (m : Map) (k : Bytes) (v : Option Bytes) : Map × Bool :=
+  (insert m k (match v with
+               | some v => v
+               | none => []), false)
+
+def dbDelete (m : Map) (k : Bytes) : Map × Bool := (erase m k, (get m k).isNone)
+
+/-- `memBatch.Write`: `for _, kv := range writes { if kv.v == nil { err = Delete } else { err = Set } }`
+— every write is applied, only the last error is returned. -/
+def Batch.write (b : Batch) (m : Map) : Map × Bool :=
+  b.writes.foldl (fun (acc : Map × Bool) (kv : Bytes × Option Bytes) =>
+    match kv.2 with
+    | none => dbDelete acc.1 kv.1
+    | some v => dbSet acc.1 kv.1 (some v)) (m, false)
+
+/-- the specification-level operations a batch stands for. -/
+def Batch.toBOps (b : Batch) : List BOp :=
+  b.writes.map (fun kv => match kv.2 with
+                          | none => BOp.del kv.1
+                          | some v => BOp.set kv.1 v)
 
 /-! ### iterator bounds (`DB.Iterator(start, end, reverse)`) -/
 
@@ -373,6 +449,22 @@ def Iter.obs (r : Iter × Bool) : Obs := (r.2, if r.1.valid then some (r.1.key, 
 def Iter.session (it : Iter) : List IStep → List Obs
   | [] => []
   | st :: rest => Iter.obs (it.step st) :: Iter.session (it.step st).1 rest
+
+/-- the specification of an iterator session: a cursor over `all` (the in-range entries in
+iteration order).  State `none` = freshly created; `some L` = `L` remains to be visited. -/
+def specStep (all : List Entry) (rev : Bool) (st : Option (List Entry)) : IStep → List Entry
+  | .rewind => all
+  | .seek k => all.dropWhile (before rev k)
+  | .next =>
+    match st with
+    | none => if rev then [] else all
+    | some L => L.tail
+
+def specSession (all : List Entry) (rev : Bool) : Option (List Entry) → List IStep → List Obs
+  | _, [] => []
+  | st, step :: rest =>
+    let L := specStep all rev st step
+    (!L.isEmpty, L.head?) :: specSession all rev (some L) rest
 
 def BIter.step (it : BIter) : IStep → BIter × Bool
   | .rewind => it.rewind
